@@ -133,11 +133,12 @@ def real_case(case, prop):
     rec = mrun.run(spec, setup=setup)
     counts = e2e.base_counts(rec)
     counts["solver_posed_subproblems"] = len(seen)
+    extra = e2e.audit(spec, rec, counts) if case["idx"] % 10 == 0 else []
     counts["postconditions"] = col.checked
     for t in col.tags:
         counts["tag:" + t] = 1
-    viols = e2e.attach(_viol_records(col, prop, {"from": "real_run"}), spec,
-                       rec)
+    viols = e2e.attach(_viol_records(col, prop, {"from": "real_run"}) + extra,
+                       spec, rec)
     nt = None
     if seen and (col.tags & {"on_bound", "on_ball"}):
         nt = "real|" + gen.spec_signature(spec) + "|" + ",".join(
